@@ -158,12 +158,25 @@ printf("including file %s.\n", token);
   }
     else
   {
+    // A file that includes itself (directly or not) would recurse forever.
+    static int include_depth = 0;
+
     oldline = asm_context->tokens.line;
 
     asm_context->tokens.filename = token;
     asm_context->tokens.line = 1;
 
-    ret = asm_context->assemble();
+    if (include_depth >= 64)
+    {
+      print_error(asm_context, "Includes nested too deeply");
+      ret = -1;
+    }
+      else
+    {
+      include_depth++;
+      ret = asm_context->assemble();
+      include_depth--;
+    }
 
     asm_context->tokens.line = oldline;
   }
